@@ -394,6 +394,16 @@ func c19BlockClass(blocked []string) string {
 }
 
 func c19Run(c *fw.Ctx) {
+	// the retention scanner's Start/Join against a cancel that arrives at once / in the middle of
+	// a scan (the scenarios of C12's R3, which drive the fake clock): part of "the retention
+	// scanner … stops without blocking shutdown"
+	for _, sp := range c12Specs() {
+		if sp.Kind == "start-join" {
+			sc := c12SchedScenario(c, sp)
+			sc.ID = "G9-scanner-" + sp.ID
+			c.Share(8, func() { exploreSched(c, sc) })
+		}
+	}
 	specs := c19Specs()
 	for i, sp := range specs {
 		if sp.ID == "G5-both-two-sessions" && !c.Thorough() {
@@ -406,6 +416,14 @@ func c19Run(c *fw.Ctx) {
 func c19Replay(c *fw.Ctx, raw json.RawMessage) {
 	var cas schedCase
 	_ = json.Unmarshal(raw, &cas)
+	for _, sp := range c12Specs() {
+		if "G9-scanner-"+sp.ID == cas.Scenario {
+			sc := c12SchedScenario(c, sp)
+			sc.ID = cas.Scenario
+			replaySched(c, sc, raw)
+			return
+		}
+	}
 	for _, sp := range c19Specs() {
 		if sp.ID == cas.Scenario {
 			replaySched(c, c19Scenario(c, sp), raw)
